@@ -342,11 +342,77 @@ def setVC : List Clause → PyM VC
     let first ← clauseVC c.op c.lit
     cs.foldlM (fun acc d => do VC.intersect acc (← clauseVC d.op d.lit)) first
 
+/-- the ends of the ranges the parser builds for the clauses of a set: the literals, `~=`'s upper end, and the
+two `.dev0` ends of a wildcard -/
+def setBounds (s : List Clause) : List Version := s.flatMap (fun c => clauseBounds c.op c.lit)
+
+/-- **a comma-joined specifier set of any length with any operators** — `~=`, `!=`, `==V.*`, `!=V.*` included
+— in the regular setting: the ends of the clauses' ranges (`setBounds`) are mutually regular and carry no local
+label, the wildcard literals are final, and the candidate is regular for those ends.  `parse_constraint`'s
+left-to-right `intersect` (`setVC`) is defined and its membership (the real `allows`) equals the reference
+conjunction. -/
+theorem regular_set_membership_eq_ref (s : List Clause)
+    (hok : ∀ c ∈ s, ClauseOk c.op c.lit ∧ ((c.op = .eqStar ∨ c.op = .neStar) → c.lit.isFinal = true))
+    (hB : RegB (setBounds s)) (v : Version) (hv : v.wf = true) (hreg : Regular (setBounds s) v) :
+    ∃ r, setVC s = .ok r ∧ r.allows v = .ok (contains s v) := by
+  have hok' : ∀ c ∈ s, ClauseOk' c.op c.lit := fun c hc =>
+    ⟨(hok c hc).1.1, (hok c hc).1.2.1, (hok c hc).1.2.2, (hok c hc).2⟩
+  have hbs : ∀ c ∈ s, ∀ e ∈ clauseBounds c.op c.lit, e ∈ setBounds s := fun c hc e he =>
+    List.mem_flatMap.2 ⟨c, hc, he⟩
+  have sem : ∀ d ∈ s, ∀ x, clauseVC d.op d.lit = .ok x → x.allows v = .ok (d.contains v) := by
+    intro d hd x hx
+    by_cases h1 : d.op = .eqStar
+    · obtain ⟨y, hy, ay⟩ := wildcard_membership_eq_ref d.lit v (hok d hd).1.1 ((hok d hd).2 (Or.inl h1)) hv
+      rw [h1] at hx; rw [hy] at hx; cases hx
+      cases d; simp only at h1; subst h1; exact ay
+    · by_cases h2 : d.op = .neStar
+      · obtain ⟨y, hy, ay⟩ := wildcard_ne_membership_eq_ref d.lit v (hok d hd).1.1 ((hok d hd).2 (Or.inr h2)) hv
+        rw [h2] at hx; rw [hy] at hx; cases hx
+        cases d; simp only at h2; subst h2; exact ay
+      · have hlit : d.lit ∈ setBounds s := hbs d hd d.lit (by
+          cases hop : d.op <;> simp_all [clauseBounds])
+        obtain ⟨y, hy, ay⟩ := clause_membership_eq_ref d.op d.lit v (hok d hd).1 ⟨h1, h2⟩ hv
+          (hreg.reg1 hlit)
+        rw [hy] at hx; cases hx; exact ay
+  cases s with
+  | nil =>
+    refine ⟨VC.any, rfl, ?_⟩
+    simp [VC.any, VC.allows, RC.allows, VRange.allows, VRange.any, contains, VRange.allowsLo, VRange.allowsHi]
+  | cons c cs =>
+    obtain ⟨first, hf, fwf, fm⟩ := clauseVC_reg hB c.op c.lit (hok' c (by simp)) (hbs c (by simp))
+    obtain ⟨res, h1, h2, h3, h4⟩ := foldClauses_reg hB v hv hreg cs first fwf fm (fun d hd =>
+      ⟨hok' d (by simp [hd]), hbs d (by simp [hd]), sem d (by simp [hd])⟩)
+    have hfp : first.allowsPlain v = c.contains v := by
+      have a := VC.allows_of_reg hB first fwf fm v
+      rw [sem c (by simp) first hf] at a
+      injection a with a; exact a.symm
+    refine ⟨res, by simp only [setVC, bind, Except.bind, hf]; exact h1, ?_⟩
+    rw [VC.allows_of_reg hB res h2 h3 v, h4, hfp]
+    simp [contains]
+
+/-- `~=1.2, !=1.3.*, !=1.2.5, >=1.2` -/
+private def exSet : List Clause :=
+  [⟨.compat, mk' 0 [1, 2] none none none none⟩, ⟨.neStar, mk' 0 [1, 3] none none none none⟩,
+   ⟨.ne, mk' 0 [1, 2, 5] none none none none⟩, ⟨.ge, mk' 0 [1, 2] none none none none⟩]
+
+/-- the hypotheses are satisfiable: `~=1.2, !=1.3.*, !=1.2.5, >=1.2` on the candidate `1.2.5` (equal to one end,
+of a different release from the others), which the set excludes -/
+example : (∀ c ∈ exSet, ClauseOk c.op c.lit ∧ ((c.op = .eqStar ∨ c.op = .neStar) → c.lit.isFinal = true)) ∧
+    RegB (setBounds exSet) ∧ Regular (setBounds exSet) (mk' 0 [1, 2, 5] none none none none) ∧
+    contains exSet (mk' 0 [1, 2, 5] none none none none) = false := by
+  refine ⟨?_, RegB.of_check (by decide), Regular.of_check (by decide), by decide⟩
+  intro c hc
+  simp only [exSet, List.mem_cons, List.mem_nil_iff, or_false] at hc
+  rcases hc with rfl | rfl | rfl | rfl <;>
+    exact ⟨⟨by decide, fun _ _ => by decide, fun _ => by decide⟩, fun _ => by decide⟩
+
 /-- C04 at full strength: membership equals the reference for every specifier set and candidate in the
 guard.  Proved: single clauses on regular candidates (`clause_membership_eq_ref`), on every candidate for final
-literals (`final_literal_membership_eq_ref`, wildcards included), and sets of any length of ordered comparisons /
-`==` on candidates regular for every literal (`set_membership_eq_ref`).  Not proved: sets containing `~=`, `!=` or
-wildcard clauses, and sets on candidates of a literal's own release.  Known to need two
+literals (`final_literal_membership_eq_ref`, wildcards included), sets of any length of ordered comparisons /
+`==` on candidates regular for every literal (`set_membership_eq_ref`), and sets of any length with any
+operators in the regular setting (`regular_set_membership_eq_ref`: range ends mutually regular, without local
+label; candidate regular for them).  Not proved: sets whose range ends share a release without being equal
+(`>=1.2, !=1.2.*`: `1.2` and `1.2.dev0`), and sets on candidates of a literal's own release.  Known to need two
 more hypotheses (check stream, known findings "sibling-of-another-literal", "local-min-intersect"): regularity
 per literal, and no `==V` clause meeting a bound that is a local build of `V`. -/
 def membership_eq_ref_full_statement : Prop :=
